@@ -2,6 +2,8 @@ import TinysetModel.Proofs.Plain
 import TinysetModel.Proofs.Consts
 import TinysetModel.Proofs.Refine
 import TinysetModel.Proofs.CfgInst
+import TinysetModel.Proofs.TotalSites
+import TinysetModel.Proofs.RemoveTotal
 /-! C01 — SetU64 behaves as an exact mathematical set of u64 under every history.
 The theorems below are about the executable model instantiated at `cfg64`. -/
 namespace C01
@@ -147,6 +149,23 @@ example : len (.heap 2 3 23 #[401016175510691840, 360712192, 0]) = (specRun [] d
   rw [ab.len]
   exact ((List.perm_ext_iff_of_nodup ab.nodup (specRun_nodup demo List.nodup_nil)).2
     (run_refines_u64 detRng 6 demo (by decide) demo_runs).2.2).length_eq
+
+/-! ### returns normally (total correctness) -/
+
+/-- EVERY insert into a well-formed SetU64 returns normally — no fuel/room/scan error in the model, i.e. no
+    `unreachable!`, no "p_insert was called when there was no room", no unbounded recursion in the code it models —
+    for every generator and state, with recursion depth at most 2 (fuel 3; fuel 2 already suffices), and the result is
+    the ideal set's.  Size hypotheses: capacity and length far below 2^64 (what `layout_for_capacity` enforces anyway). -/
+theorem insert_returns_and_is_right_u64 {D : Type} (g : Rng D) {r : Rp} (wf : WF cfg64 r) (e : Nat) (he : e < 2 ^ 64)
+    (hsize : capacity r + 64 + 3 ≤ 2 ^ 64 ∧ 3 * len r + 4 + 64 + 3 ≤ 2 ^ 64) (d : D) :
+    ∃ r' b d', insert cfg64 g 3 r e d = .ok ((r', b), d') ∧ InsOK cfg64 r e r' b :=
+  insert_total_correct_u64 g wf e he hsize d
+
+/-- `remove` and `contains` never fail on a well-formed heap set: `remove` is total in every heap layout -/
+theorem remove_returns_heap_u64 {D : Type} (g : Rng D) (fuel : Nat) {sz cap bits : Nat} {a : Tbl}
+    (wf : WF cfg64 (.heap sz cap bits a)) (e : Nat) (he : e < 2 ^ 64) (d : D) :
+    ∃ r' b, remove cfg64 g fuel (.heap sz cap bits a) e d = .ok ((r', b), d) ∧ RemOK cfg64 (.heap sz cap bits a) e r' b :=
+  remove_heap_total cfg64_ok g fuel wf e he d
 
 end C01
 
